@@ -319,7 +319,7 @@ func c12sRun(p *vreport.Part, c c12sCase, replay bool) bool {
 		cc := c
 		cc.Choices = r.Choices
 		if r.Deadlock || len(r.Panics) > 0 || r.StepLimit || r.Diverged != "" || st.problem != "" {
-			vreport.HarnessError("C12", c12sPart, fmt.Sprintf("execution did not complete: %s %v %s (case %+v)", r.String(), r.Panics, st.problem, cc))
+			vreport.HarnessError(c12sProp, c12sPart, fmt.Sprintf("execution did not complete: %s %v %s (case %+v)", r.String(), r.Panics, st.problem, cc))
 			return
 		}
 		summary, viols, mixes := c12sJudge(c, &st)
@@ -344,15 +344,21 @@ func c12sRun(p *vreport.Part, c c12sCase, replay bool) bool {
 	return stats.Complete
 }
 
-func TestVerifC12Swap(t *testing.T) {
+// c12sProp is the property the part reports under: C12 (updates are atomic for lookups) and, through
+// TestVerifC05ManagerSwap, C05 (a lookup sees the old or the new host set, never a mixture or an empty one).
+var c12sProp = "C12"
+
+func TestVerifC12Swap(t *testing.T) { c12sMain(t) }
+
+func c12sMain(t *testing.T) {
 	log.DefaultLogger.SetLogLevel(log.ERROR)
 	log.StartLogger.SetLogLevel(log.ERROR)
-	p := vreport.Begin("C12", c12sPart, time.Duration(vreport.Pick(4, 40))*time.Minute)
+	p := vreport.Begin(c12sProp, c12sPart, time.Duration(vreport.Pick(4, 40))*time.Minute)
 	if vreport.Replaying() {
 		var rc c12sCase
-		if vreport.ReplayFor("C12", c12sPart, &rc) {
+		if vreport.ReplayFor(c12sProp, c12sPart, &rc) {
 			if c12sOpByName(rc.Op) == nil {
-				vreport.HarnessError("C12", c12sPart, "replay names unknown operation "+rc.Op)
+				vreport.HarnessError(c12sProp, c12sPart, "replay names unknown operation "+rc.Op)
 				return
 			}
 			c12sRun(p, rc, true)
@@ -373,7 +379,7 @@ func TestVerifC12Swap(t *testing.T) {
 		rb := vrt.RunOnce(nil, vrt.Options{MaxSteps: 50000}, func() { c12sBody(c, &sb) })
 		ob, _, _ := c12sJudge(c, &sb)
 		if sa.problem != "" || oa != ob || fmt.Sprint(ra.Choices) != fmt.Sprint(rb.Choices) {
-			vreport.HarnessError("C12", c12sPart, fmt.Sprintf("%s: default schedule is not deterministic or did not run: %q/%v vs %q/%v %s", c.Op, oa, ra.Choices, ob, rb.Choices, sa.problem))
+			vreport.HarnessError(c12sProp, c12sPart, fmt.Sprintf("%s: default schedule is not deterministic or did not run: %q/%v vs %q/%v %s", c.Op, oa, ra.Choices, ob, rb.Choices, sa.problem))
 			p.End(false, "aborted", "nondeterministic harness")
 			return
 		}
